@@ -48,16 +48,21 @@ theorem xorSum_append {α : Type} (l₁ l₂ : List α) (f : α → Bool) :
 /-! ### syndrome rows -/
 
 /-- flipping the Z part at one location changes a row's syndrome by the row's X entry there -/
-theorem rowSyn_toggle (op : Op) (z : Loc → Bool) (loc : Loc) :
-    rowSyn op (fun _ => false) (fun q => z q != (q == loc)) =
-      (rowSyn op (fun _ => false) z != xorSum op (fun e => hasX e.2 && e.1 == loc)) := by
+theorem rowSyn_toggleX (op : Op) (x z : Loc → Bool) (loc : Loc) :
+    rowSyn op x (fun q => z q != (q == loc)) =
+      (rowSyn op x z != xorSum op (fun e => hasX e.2 && e.1 == loc)) := by
   unfold rowSyn
   rw [← xorSum_xor]
   apply xorSum_congr
   intro e _
   dsimp only
   generalize (e.1 == loc) = b
-  cases hasX e.2 <;> cases hasZ e.2 <;> cases z e.1 <;> cases b <;> rfl
+  cases hasX e.2 <;> cases hasZ e.2 <;> cases z e.1 <;> cases x e.1 <;> cases b <;> rfl
+
+theorem rowSyn_toggle (op : Op) (z : Loc → Bool) (loc : Loc) :
+    rowSyn op (fun _ => false) (fun q => z q != (q == loc)) =
+      (rowSyn op (fun _ => false) z != xorSum op (fun e => hasX e.2 && e.1 == loc)) :=
+  rowSyn_toggleX op (fun _ => false) z loc
 
 /-- rows without Z entries only see the Z part of the error -/
 theorem rowSyn_of_not_zIndex (lat : Lattice) (s : Loc) (ex ez : Loc → Bool)
@@ -321,13 +326,17 @@ theorem zipWith_map_self (g : Loc → Bool) (h : Bool → Loc → Bool) (stabs :
 
 /-! ### one flipped edge -/
 
+theorem faceSynK_length (keep : Loc → Bool) (lat : Lattice) (x z : Loc → Bool) :
+    (faceSynK keep lat x z).length = lat.stabs.length := by
+  simp [faceSynK]
+
 theorem faceSyn_length (lat : Lattice) (z : Loc → Bool) : (faceSyn lat z).length = lat.stabs.length := by
   simp [faceSyn]
 
-theorem flipOK_spec {lat : Lattice} {faces : Loc → Option (List Loc)} {loc : Loc}
-    (h : flipOK lat faces loc = true) :
-    ∃ fl, faces loc = some fl ∧ ∀ s ∈ lat.stabs, oddCount fl s = faceHas lat s loc := by
-  unfold flipOK at h
+theorem flipOKK_spec {keep : Loc → Bool} {lat : Lattice} {faces : Loc → Option (List Loc)} {loc : Loc}
+    (h : flipOKK keep lat faces loc = true) :
+    ∃ fl, faces loc = some fl ∧ ∀ s ∈ lat.stabs, oddCount fl s = faceHasK keep lat s loc := by
+  unfold flipOKK at h
   cases hf : faces loc with
   | none => simp [hf] at h
   | some fl =>
@@ -335,48 +344,121 @@ theorem flipOK_spec {lat : Lattice} {faces : Loc → Option (List Loc)} {loc : L
     simp only [hf, List.all_eq_true, beq_iff_eq] at h
     exact h
 
+/-- ONE-STEP LEMMA, for any choice `keep` of the face rows and any X part of the error:
+    flipping an edge on which the flip table is consistent, together with the toggle update of
+    the correction, preserves the invariant. -/
+theorem flip_stepK (keep : Loc → Bool) (lat : Lattice) (faces : Loc → Option (List Loc))
+    (hnd : lat.stabs.Nodup) (ex ez : Loc → Bool) (st : State) (loc : Loc)
+    (hT : TracksK keep lat ex ez st) (hZ : ZOnly st.corr) (hok : flipOKK keep lat faces loc = true) :
+    ∃ s', flipWith lat faces loc st.signs = some s' ∧
+      TracksK keep lat ex ez ⟨s', site st.corr .Z loc⟩ ∧ ZOnly (site st.corr .Z loc) := by
+  obtain ⟨fl, hfl, hcount⟩ := flipOKK_spec hok
+  unfold TracksK at hT
+  refine ⟨fl.foldl (fun s f => toggleAt s (lat.stabIdx f)) st.signs, by simp [flipWith, hfl], ?_,
+    zOnly_site _ _ hZ⟩
+  unfold TracksK
+  simp only
+  unfold Lattice.stabIdx
+  rw [foldl_toggle lat.stabs hnd fl st.signs (by rw [hT, faceSynK_length])]
+  rw [residualZ_site ez st.corr loc hZ, hT]
+  unfold faceSynK
+  rw [zipWith_map_self]
+  apply List.map_congr_left
+  intro s hs
+  rw [hcount s hs, rowSyn_toggleX]
+  unfold faceHasK
+  cases keep s <;> simp
+
+/-- MANY EDGES: the second loop of `sweep_move` -/
+theorem applyFlips_tracksK (keep : Loc → Bool) (lat : Lattice) (faces : Loc → Option (List Loc))
+    (hnd : lat.stabs.Nodup) (ex ez : Loc → Bool) (locs : List Loc) (st : State)
+    (hT : TracksK keep lat ex ez st) (hZ : ZOnly st.corr)
+    (hok : ∀ loc ∈ locs, flipOKK keep lat faces loc = true) :
+    ∃ st', applyFlips lat faces site locs st = some st' ∧ TracksK keep lat ex ez st' ∧
+      ZOnly st'.corr := by
+  induction locs generalizing st with
+  | nil => exact ⟨st, rfl, hT, hZ⟩
+  | cons loc rest ih =>
+    obtain ⟨s', hs', hT', hZ'⟩ :=
+      flip_stepK keep lat faces hnd ex ez st loc hT hZ (hok loc List.mem_cons_self)
+    obtain ⟨st', hst', h1, h2⟩ :=
+      ih ⟨s', site st.corr .Z loc⟩ hT' hZ' (fun l hl => hok l (List.mem_cons_of_mem _ hl))
+    exact ⟨st', by simp [applyFlips, hs', hst'], h1, h2⟩
+
+/-! #### `SweepDecoder3D`: face rows = rows not flagged in `z_indices` -/
+
+theorem tracks_iff_K (lat : Lattice) (ez : Loc → Bool) (st : State) :
+    Tracks lat ez st ↔ TracksK (fun s => !lat.zIndex s) lat (fun _ => false) ez st := Iff.rfl
+
+theorem flipOK_eq_K (lat : Lattice) (faces : Loc → Option (List Loc)) (loc : Loc) :
+    flipOK lat faces loc = flipOKK (fun s => !lat.zIndex s) lat faces loc := rfl
+
+theorem flipOK_spec {lat : Lattice} {faces : Loc → Option (List Loc)} {loc : Loc}
+    (h : flipOK lat faces loc = true) :
+    ∃ fl, faces loc = some fl ∧ ∀ s ∈ lat.stabs, oddCount fl s = faceHas lat s loc :=
+  flipOKK_spec (keep := fun s => !lat.zIndex s) h
+
 /-- ONE-STEP LEMMA: flipping an edge on which the flip table is consistent, together with the
     toggle update of the correction, preserves the invariant. -/
 theorem flip_step (lat : Lattice) (faces : Loc → Option (List Loc)) (hnd : lat.stabs.Nodup)
     (ez : Loc → Bool) (st : State) (loc : Loc)
     (hT : Tracks lat ez st) (hZ : ZOnly st.corr) (hok : flipOK lat faces loc = true) :
     ∃ s', flipWith lat faces loc st.signs = some s' ∧
-      Tracks lat ez ⟨s', site st.corr .Z loc⟩ ∧ ZOnly (site st.corr .Z loc) := by
-  obtain ⟨fl, hfl, hcount⟩ := flipOK_spec hok
-  unfold Tracks at hT
-  refine ⟨fl.foldl (fun s f => toggleAt s (lat.stabIdx f)) st.signs, by simp [flipWith, hfl], ?_,
-    zOnly_site _ _ hZ⟩
-  unfold Tracks
-  simp only
-  unfold Lattice.stabIdx
-  rw [foldl_toggle lat.stabs hnd fl st.signs (by rw [hT, faceSyn_length])]
-  rw [residualZ_site ez st.corr loc hZ, hT]
-  unfold faceSyn
-  rw [zipWith_map_self]
-  apply List.map_congr_left
-  intro s hs
-  rw [hcount s hs, rowSyn_toggle]
-  unfold faceHas
-  cases lat.zIndex s <;> simp
+      Tracks lat ez ⟨s', site st.corr .Z loc⟩ ∧ ZOnly (site st.corr .Z loc) :=
+  flip_stepK (fun s => !lat.zIndex s) lat faces hnd (fun _ => false) ez st loc hT hZ hok
 
 /-- MANY EDGES: the second loop of `sweep_move` -/
 theorem applyFlips_tracks (lat : Lattice) (faces : Loc → Option (List Loc)) (hnd : lat.stabs.Nodup)
     (ez : Loc → Bool) (locs : List Loc) (st : State)
     (hT : Tracks lat ez st) (hZ : ZOnly st.corr) (hok : ∀ loc ∈ locs, flipOK lat faces loc = true) :
-    ∃ st', applyFlips lat faces site locs st = some st' ∧ Tracks lat ez st' ∧ ZOnly st'.corr := by
-  induction locs generalizing st with
-  | nil => exact ⟨st, rfl, hT, hZ⟩
-  | cons loc rest ih =>
-    obtain ⟨s', hs', hT', hZ'⟩ :=
-      flip_step lat faces hnd ez st loc hT hZ (hok loc List.mem_cons_self)
-    obtain ⟨st', hst', h1, h2⟩ :=
-      ih ⟨s', site st.corr .Z loc⟩ hT' hZ' (fun l hl => hok l (List.mem_cons_of_mem _ hl))
-    exact ⟨st', by simp [applyFlips, hs', hst'], h1, h2⟩
+    ∃ st', applyFlips lat faces site locs st = some st' ∧ Tracks lat ez st' ∧ ZOnly st'.corr :=
+  applyFlips_tracksK (fun s => !lat.zIndex s) lat faces hnd (fun _ => false) ez locs st hT hZ hok
+
+/-! #### `RotatedSweepDecoder3D`: face rows = rows of type `'face'` -/
+
+/-- a Z-only correction leaves the X part of the error alone -/
+theorem residualX_zOnly (ex : Loc → Bool) (op : Op) (h : ZOnly op) : residualX ex op = ex := by
+  funext q
+  simp [residualX, xPartOf_zOnly op q h]
+
+theorem tracksRot_iff_K (lat : Lattice) (ex ez : Loc → Bool) (st : State) (hZ : ZOnly st.corr) :
+    TracksRot lat ex ez st ↔ TracksK lat.isFace lat ex ez st := by
+  unfold TracksRot TracksK faceSynRot
+  rw [residualX_zOnly ex st.corr hZ]
+
+theorem flipOKRot_spec {lat : Lattice} {faces : Loc → Option (List Loc)} {loc : Loc}
+    (h : flipOKRot lat faces loc = true) :
+    ∃ fl, faces loc = some fl ∧ ∀ s ∈ lat.stabs, oddCount fl s = faceHasRot lat s loc :=
+  flipOKK_spec (keep := lat.isFace) h
+
+/-- ONE-STEP LEMMA for the rotated decoder (any Pauli error: X part `ex`, Z part `ez`) -/
+theorem flip_stepRot (lat : Lattice) (faces : Loc → Option (List Loc)) (hnd : lat.stabs.Nodup)
+    (ex ez : Loc → Bool) (st : State) (loc : Loc)
+    (hT : TracksRot lat ex ez st) (hZ : ZOnly st.corr) (hok : flipOKRot lat faces loc = true) :
+    ∃ s', flipWith lat faces loc st.signs = some s' ∧
+      TracksRot lat ex ez ⟨s', site st.corr .Z loc⟩ ∧ ZOnly (site st.corr .Z loc) := by
+  obtain ⟨s', h1, h2, h3⟩ := flip_stepK lat.isFace lat faces hnd ex ez st loc
+    ((tracksRot_iff_K lat ex ez st hZ).mp hT) hZ hok
+  exact ⟨s', h1, (tracksRot_iff_K lat ex ez ⟨s', site st.corr .Z loc⟩ h3).mpr h2, h3⟩
+
+theorem applyFlips_tracksRot (lat : Lattice) (faces : Loc → Option (List Loc)) (hnd : lat.stabs.Nodup)
+    (ex ez : Loc → Bool) (locs : List Loc) (st : State)
+    (hT : TracksRot lat ex ez st) (hZ : ZOnly st.corr)
+    (hok : ∀ loc ∈ locs, flipOKRot lat faces loc = true) :
+    ∃ st', applyFlips lat faces site locs st = some st' ∧ TracksRot lat ex ez st' ∧
+      ZOnly st'.corr := by
+  obtain ⟨st', h1, h2, h3⟩ := applyFlips_tracksK lat.isFace lat faces hnd ex ez locs st
+    ((tracksRot_iff_K lat ex ez st hZ).mp hT) hZ hok
+  exact ⟨st', h1, (tracksRot_iff_K lat ex ez st' h3).mpr h2, h3⟩
 
 /-! ### loops -/
 
 /-- the state predicate carried through every loop -/
 def Good (lat : Lattice) (ez : Loc → Bool) (st : State) : Prop := Tracks lat ez st ∧ ZOnly st.corr
+
+/-- the state predicate of the rotated decoder -/
+def GoodRot (lat : Lattice) (ex ez : Loc → Bool) (st : State) : Prop :=
+  TracksRot lat ex ez st ∧ ZOnly st.corr
 
 /-- a `move` that always succeeds from good states and keeps them good -/
 def Preserves (P : State → Prop) (move : State → List Dir → Option (State × List Dir)) : Prop :=
@@ -494,9 +576,9 @@ theorem flipLocations3D_ok (lat : Lattice) (hft : flipTableOK lat (flipFaces3D l
       apply hft loc
       simpa [Lattice.isQubit] using hq
 
-theorem flipLocationsRot_ok (lat : Lattice) (hft : flipTableOK lat (flipFacesRot lat) = true)
+theorem flipLocationsRot_ok (lat : Lattice) (hft : flipTableOKRot lat (flipFacesRot lat) = true)
     (signs : Signs) (sd : SweepDir) (vs : List Loc) (ds : List Dir) :
-    ∀ loc ∈ (flipLocationsRot lat signs sd vs ds).1, flipOK lat (flipFacesRot lat) loc = true := by
+    ∀ loc ∈ (flipLocationsRot lat signs sd vs ds).1, flipOKRot lat (flipFacesRot lat) loc = true := by
   induction vs generalizing ds with
   | nil => intro loc h; simp [flipLocationsRot] at h
   | cons v vs ih =>
@@ -506,7 +588,7 @@ theorem flipLocationsRot_ok (lat : Lattice) (hft : flipTableOK lat (flipFacesRot
     cases h with
     | inr h2 => exact ih _ loc h2
     | inl h1 =>
-      unfold flipTableOK at hft
+      unfold flipTableOKRot at hft
       rw [List.all_eq_true] at hft
       split at h1
       · rename_i hvalid
@@ -533,10 +615,10 @@ theorem sweepMove3D_preserves (lat : Lattice) (hnd : lat.stabs.Nodup)
 
 /-- `RotatedSweepDecoder3D.sweep_move` keeps good states good, for every sweep direction -/
 theorem sweepMoveRot_preserves (lat : Lattice) (hnd : lat.stabs.Nodup)
-    (hft : flipTableOK lat (flipFacesRot lat) = true) (ez : Loc → Bool) (sd : SweepDir) :
-    Preserves (Good lat ez) (sweepMoveRot lat sd) := by
+    (hft : flipTableOKRot lat (flipFacesRot lat) = true) (ex ez : Loc → Bool) (sd : SweepDir) :
+    Preserves (GoodRot lat ex ez) (sweepMoveRot lat sd) := by
   intro st ds ⟨hT, hZ⟩
-  obtain ⟨st', h1, h2, h3⟩ := applyFlips_tracks lat (flipFacesRot lat) hnd ez
+  obtain ⟨st', h1, h2, h3⟩ := applyFlips_tracksRot lat (flipFacesRot lat) hnd ex ez
     (flipLocationsRot lat st.signs sd (sweepVerticesRot lat) ds).1 st hT hZ
     (flipLocationsRot_ok lat hft st.signs sd _ ds)
   exact ⟨st', (flipLocationsRot lat st.signs sd (sweepVerticesRot lat) ds).2,
@@ -552,5 +634,29 @@ theorem initial_good (lat : Lattice) (ex ez : Loc → Bool) :
   congr 1
   funext q
   simp [residualZ, zPartOf]
+
+/-- `RotatedSweepDecoder3D.get_initial_state(measure_syndrome(e))` is the face part (rows of
+    type `'face'`) of the syndrome of `e` -/
+theorem initialStateRot_syndrome (lat : Lattice) (ex ez : Loc → Bool) :
+    initialStateRot lat (syndromeOf lat ex ez) = faceSynRot lat ex ez := by
+  unfold initialStateRot syndromeOf faceSynRot faceSynK
+  rw [List.zipWith_map_right]
+  rw [List.zipWith_self]
+  apply List.map_congr_left
+  intro s _
+  cases h : lat.isFace s <;> simp
+
+/-- the initial state of the rotated `decode` is good -/
+theorem initial_goodRot (lat : Lattice) (ex ez : Loc → Bool) :
+    GoodRot lat ex ez ⟨initialStateRot lat (syndromeOf lat ex ez), []⟩ := by
+  refine ⟨?_, by intro e he; simp at he⟩
+  unfold TracksRot
+  simp only
+  rw [initialStateRot_syndrome]
+  congr 1
+  · funext q
+    simp [residualX, xPartOf]
+  · funext q
+    simp [residualZ, zPartOf]
 
 end Panqec.Sweep
